@@ -559,11 +559,15 @@ def builder_step(rng, st, src: BState):
         return BState(new, src.name, [*calls, {'op': 'copy'}, {'op': 'rename', 'name': T.cps(newname)}], strings, comments)
     if op == 'authors':
         people, cells = [], []
-        for _ in range(rng.choice([1, 1, 2, 3])):
+        # now and then a long author list, most of them with a role (ids with two digits: '10' sorts before '2' as text)
+        many = rng.random() < 0.08
+        for _ in range(rng.randrange(10, 15) if many else rng.choice([1, 1, 2, 3])):
             name = _pick_str(rng, st) or 'N N'
             if not name.strip(' \t\n'):
                 name = 'N N'
             role = rng.choice([None, None, 'measurement', _pick_str(rng, st)])
+            if many and role is None and rng.random() < 0.8:
+                role = rng.choice(['measurement', 'analysis', 'software', 'principal-investigator'])
             address = rng.choice([None, None, 'Partikelgatan, Lund', 'Street 1\nTown', _pick_str(rng, st)])
             email = rng.choice([None, None, 'jane.doe@ess.eu', 'a_b@scipp.eu'])
             orcid = rng.choice([None, _orcid(rng)])
